@@ -76,7 +76,25 @@ def u1(prog, ctx):
         ok, cut = cfg.all_paths_cut(cfg.block_of(node), nogroup)
         if not (ok and cut):
             unconditional.append((node, what))
-    if unconditional:
+    # when the NULL section hangs on `V == K` of a counting loop, that loop must really start at K
+    starts_ok = True
+    why_start = ""
+    for node, what in unconditional:
+        mcond = None
+        for x in node.walk():
+            if x.k == "ConditionalOperator" and (x.child("then").is_null_const() or x.child("else").is_null_const()):
+                mcond = x.child("cond").strip()
+        if mcond is not None and mcond.k == "BinaryOperator" and mcond.j.get("op") == "==":
+            v, kc = render(mcond.children[0]), mcond.children[1].const_value()
+            for a in node.ancestors():
+                if a.k == "ForStmt":
+                    sh = loops.for_shape(a)
+                    if sh.var == v and (sh.start_node is None or sh.start_node.const_value() != kc):
+                        starts_ok = False
+                        why_start = "the pass for `%s == %s` exists, but the loop starts at `%s`: when that is not %s the group-less pass is skipped" % (v, kc, sh.start, kc)
+    if unconditional and not starts_ok:
+        ctx.fail("U1", "keys outside any section are listed", unconditional[0][0].where, why_start, key="groupless-pass-skipped")
+    elif unconditional:
         ctx.ok("U1", "keys outside any section are listed", unconditional[0][0].where,
                "`%s` is reached whether or not the file has sections" % unconditional[0][1])
     else:
@@ -127,15 +145,14 @@ def u2(prog, ctx):
     else:
         ctx.ok("U2", "status reflects the library's verdict", f.where, "non-zero return exactly behind `%s != 0`" % ev)
     pe = f.calls("print_error")
-    okp = False
-    for c in pe:
-        for r in f.returns():
-            if r.children and r.children[0].const_value() not in (0, None) and cfg.node_dominates(c, r):
-                okp = True
-    if okp:
-        ctx.ok("U2", "the error location is printed on failure", pe[0].where, "print_error() dominates the failing return")
+    failing = [r for r in f.returns() if r.children and r.children[0].const_value() not in (0, None)]
+    silent = [r for r in failing if not any(cfg.node_dominates(c, r) for c in pe)]
+    if failing and not silent:
+        ctx.ok("U2", "the error location is printed on failure", pe[0].where, "print_error() dominates all %d failing returns" % len(failing))
     else:
-        ctx.fail("U2", "the error location is printed on failure", f.where, "failing return without print_error()", key="no-location")
+        ctx.fail("U2", "the error location is printed on failure", (silent[0] if silent else f).where,
+                 "a failing return is not preceded by print_error(): for that kind of read (e.g. a single absolute file) the error is reported without file and line",
+                 key="no-location")
     p = prog.fn("print_error", util=True)
     if p.calls("econf_errLocation") and p.calls("econf_errString"):
         ctx.ok("U2", "print_error names file, line and message", p.where, "econf_errLocation + econf_errString")
@@ -175,8 +192,18 @@ def u3_u4(prog, ctx):
     prc = cat.calls("pr_key_file")
     if len(lp) == 1 and prc and prc[0].within(lp[0]):
         sh = loops.for_shape(lp[0])
-        if loops.covers_range(sh, 0, size) and render(prc[0].call_args()[0]) == "%s[%s]" % (arr, sh.var):
-            ctx.ok("U3", "cat prints every consulted file in processing order", lp[0].where, sh.describe())
+        ccfg = cat.cfg
+        hb = ccfg.loop_header(lp[0])
+        pb = ccfg.block_of(prc[0])
+        skip = ccfg.reachable(ccfg.loop_body_entry(lp[0]), avoid_blocks=[pb, hb])
+        skipped = any(s2 == hb and b in skip for (b, i, s2) in ccfg.edges()) or any(
+            ccfg.block_of(x) in skip for x in (lp[0].child("inc").walk() if lp[0].child("inc") is not None else []))
+        if skipped:
+            ctx.fail("U3", "cat prints every consulted file in processing order", prc[0].where,
+                     "an iteration can go round without calling pr_key_file(): after some condition (e.g. an earlier file that could not be printed) the "
+                     "remaining consulted files are not listed", key="cat-skip")
+        elif loops.covers_range(sh, 0, size) and render(prc[0].call_args()[0]) == "%s[%s]" % (arr, sh.var):
+            ctx.ok("U3", "cat prints every consulted file in processing order", lp[0].where, sh.describe() + "; pr_key_file() on every way round")
         else:
             ctx.fail("U3", "cat prints every consulted file in processing order", lp[0].where, "loop %s printing %s" % (sh.describe(), render(prc[0].call_args()[0])),
                      key="cat-loop")
@@ -195,7 +222,21 @@ def u3_u4(prog, ctx):
     for c in m.calls(("econf_read", "econf_cat")):
         args = [render(x) for x in c.call_args()]
         pairs.add((args[-3], args[-2]) if c.j["callee"] == "econf_read" else (args[0], args[1]))
-    if len(pairs) == 1:
+    rdm = ReachingDefs(m)
+    defsets = {}
+    for c in m.calls(("econf_read", "econf_cat", "econf_edit")):
+        for a in c.call_args():
+            a2 = a.strip()
+            if a2.k == "DeclRefExpr" and a2.j.get("dk") == "local" and a2.j["name"] in ("delimiters", "comment"):
+                ds = frozenset(d.idx for d in rdm.reaching(a2.j["name"], c))
+                defsets.setdefault(a2.j["name"], {})[("%s@%d" % (c.j["callee"], c.line))] = ds
+    differing = [(v, sites) for v, sites in defsets.items() if len(set(sites.values())) > 1]
+    if differing:
+        v, sites = differing[0]
+        ctx.fail("U4", "all sub-commands get the same delimiter/comment options", m.where,
+                 "`%s` reaches the sub-commands with different definitions (%s): e.g. the escape translation of --delimiters is applied for some "
+                 "sub-commands only" % (v, ", ".join(sorted(sites))), key="subcmd-defs:%s" % v)
+    elif len(pairs) == 1:
         ctx.ok("U4", "all sub-commands get the same delimiter/comment options", m.where, str(list(pairs)[0]))
     else:
         ctx.fail("U4", "all sub-commands get the same delimiter/comment options", m.where, "differing actuals %s" % sorted(pairs), key="subcmd-args")
